@@ -79,7 +79,8 @@ class Case:
 class Check(DiffCheck):
     id = 'C16'
     coq_dirs = ['Base', 'C15', 'C16']
-    coq_targets = ['C16/C16_Lists.vo', 'C16/C16_AlignedProofs.vo', 'C16/C16_AlignedProofs2.vo', 'C16/C16_Proofs.vo']
+    coq_targets = ['C16/C16_Lists.vo', 'C16/C16_AlignedProofs.vo', 'C16/C16_AlignedProofs2.vo', 'C16/C16_Proofs.vo',
+                   'C16/C16_XGeneric.vo', 'C16/C16_XProofs.vo', 'C16/C16_XInst.vo', 'C16/C16_XOps.vo']
     properties_v = 'C16/C16_Properties.v'
     extract_v = 'C16/C16_Extract.v'
     runner_ml = 'ocaml/C16_run.ml'
@@ -93,9 +94,10 @@ class Check(DiffCheck):
     assumptions = ['underlay files are well behaved (no short I/O other than at EOF, no errors)',
                    'requests starting at/after EOF are outside the property (modelled and compared, not judged by the oracle)',
                    'offsets/lengths in the correspondence run are < 4096 (the model uses unary nat for list positions)']
-    partial_note = ('proved: aligned adaptor (pread/pwrite/preadv/pwritev, every alignment 2^k, all requests aligned, operation sequences); '
-                    'NOT proved: linear_refines / stripe_refines (statement kept as C16_Proofs.linear_refines_stmt) — the composites and '
-                    'VirtualFile::piov_copy are covered by the correspondence run and the oracle only')
+    partial_note = ('proved: aligned adaptor (all four operations, every alignment 2^k, requests aligned, sequences); '
+                    'FixedSizeLinearFile (both splitters) and StripeFile incl. VirtualFile::piov_copy and sequences, for non-empty '
+                    'requests starting inside the composite. NOT proved: VariableSizeLinearFile (range_split_vi instance) and '
+                    'zero-length requests on the composites — covered by the correspondence run and the oracle only')
     trusted_base = ['recording in-memory IFile of harness/C16/harness.cpp is the well-behaved plain file',
                     'ASan malloc_fill_byte=0xbe stands for uninitialised bounce-buffer content']
 
